@@ -626,6 +626,12 @@ class Runner:
                 rep["corr_breaks"] = self.corr_breaks[:10]
                 rep["build_problems"] = [{"kind": k, "name": n, "detail": d} for k, n, d in self.build_problems]
             json.dump(rep, open(replay_path, "w"), indent=1)
+        try:
+            os.makedirs(WORK, exist_ok=True)
+            json.dump({"corr_breaks": self.corr_breaks[:200], "violations": self.violations[:200]},
+                      open(os.path.join(WORK, "last-%s-%s.json" % (pid, self.tier)), "w"), indent=1)
+        except Exception:
+            pass
         wall = round(time.time() - self.t0, 1)
         pi = self.prop_info or {"theorems": [], "compiled": False, "closed": 0, "axioms": []}
         n_obl = len(pi["theorems"])
